@@ -187,7 +187,7 @@ theorem sdrec_roundtrip (r : SDRec) (d : Nat) (v : Version) (ls : List Line) (hr
       have := mdLoop_entries r.md hmd [] none (by simpa using hnd)
       simpa [Metadata.deserialize, pend] using this
     have hemp : (body ++ [mEnd]).isEmpty = false := by cases body <;> rfl
-    simp only [header_deserialize_lines r.header hh [], hemp, hread, hmdr, bind, Except.bind, pure, Except.pure,
+    simp only [header_deserialize_lines r.header hh [], hemp, hread, hmdr, wrapDeser, bind, Except.bind, pure, Except.pure,
       Bool.false_eq_true, if_false]
 
 /-! ## a whole file -/
